@@ -5,6 +5,7 @@ import tempfile
 
 from . import ranks, tlc
 
+MAX_BATCH_EVENTS = 40000
 BATCH = 2500
 
 
@@ -39,8 +40,18 @@ def validate(traces, spec="SolverTrace", cfg="SolverTrace.cfg", keep_top=("tol",
     os.makedirs(tlc.WORK, exist_ok=True)
     jobs = []
     files = []
-    for i in range(0, len(traces), BATCH):
-        chunk = traces[i:i + BATCH]
+    # batches are bounded by trace count AND by total event count (the JSON of a batch is read into the TLC heap)
+    chunks, cur, nev = [], [], 0
+    for tr in traces:
+        ne = len(tr["events"])
+        if cur and (len(cur) >= BATCH or nev + ne > MAX_BATCH_EVENTS):
+            chunks.append(cur)
+            cur, nev = [], 0
+        cur.append(tr)
+        nev += ne
+    if cur:
+        chunks.append(cur)
+    for chunk in chunks:
         enc = []
         for tr in chunk:
             t2 = ranks.encode_trace(tr) if encode else tr
